@@ -5,7 +5,7 @@ from vlib import Work, run_vh, run_tlc, tlc_must_pass, read_ndjson, MachineryErr
 from .c03 import validate
 
 T_TAGS = {"handler-ran-without-a-match", "not-transparent"}
-P_TAGS = {"custom-operand-rejected", "compiled-operand-differs", "handler-calls-differ-from-dispatches", "evaluation-count", "returned-value-not-used", "result-aliased"}
+P_TAGS = {"custom-operand-rejected", "compiled-operand-differs", "handler-calls-differ-from-dispatches", "evaluation-count", "returned-value-not-used", "result-aliased", "result-aliased-in-process-text"}
 
 
 def run(rep, tier, seed):
